@@ -1167,19 +1167,30 @@ def run(rep, tier):
         from harness.props.c17 import broken_build
         broken_build(rep)
     rep.assumptions += [
-        "typing's own normalisation of Union arguments (flattening, de-duplication) is CPython's, not typedpy's: "
-        "modelled in pyeval, and the equivalence is claimed for unions typing keeps as written",
+        "typing's own normalisation of Union arguments (flattening, de-duplication) and its argument cache are CPython's, "
+        "not typedpy's: flattening is modelled in pyeval and proved (C13_union_flatten); Unions typing de-duplicates, and "
+        "typing Unions used as an ARGUMENT of another typing construct in a non-canonical member order (their meaning "
+        "depends on what the process evaluated before: typing's cache compares Unions as sets), are not generated",
         "re.match is an oracle (Section variable) for default validation, instantiated per case from the real re module",
-        "defaults are immutable scalars (int/float/str/bool); callable and None defaults are outside the explored space",
+        "defaults are immutable scalars (on scalar fields and unions of scalars) and list/dict/set literals (on collection "
+        "fields); callable and None defaults are outside the explored space",
         "exception precedence between several ill-formed members of one class is not compared (at most one per class)",
+        "the guards of Gen/AnnotGuards.v are recognised by AST shape; an unrecognised shape fails C13_src_rules (broken "
+        "obligation), it is not translated",
     ]
     return rep.finish(
-        rule="class cases = semantic classes of 1-4 members (field vocabulary of fieldgen, nesting <= %d, optional-ness, "
-             "scalar defaults valid/invalid/falsy); variants = a random base spelling per member + one variant per "
-             "other declaration form of each member, each realised with and without `from __future__ import "
-             "annotations`; candidate values = valid / one-point corruption / arbitrary / None / absent per member; "
-             "correspondence cases = every distinct (context, spelling) and declaration used, Cls[...] context and "
-             "wrong-kind corruptions; distinct = distinct spelling signatures" % max_depth)
+        rule="class cases = semantic classes of 1-4 members (field vocabulary of fieldgen, nesting <= %d, 22%% of members an "
+             "AnyOf of 2-4 different members with None at a random position, optional-ness, defaults valid/invalid/falsy); "
+             "variants = a random base spelling per member + one variant per other declaration form of each member (typing "
+             "Unions: as written, Optional[..], nested groups; each listed and not listed in _optional) + two variants with "
+             "ALL members respelled, each realised with and without `from __future__ import annotations`; deterministic "
+             "lattices (independent of VERIF_SEED): union shapes (arity 2-4 x position of None x nesting x member spelling x "
+             "listed/unlisted), scalar defaults x declaration forms, mutable defaults x declaration forms, annotation lengths "
+             "around the __future__ bound; candidate values = valid / one-point corruption / arbitrary / None / absent per "
+             "member, plus deserialization of the serialized form; correspondence cases = every distinct (context, spelling) "
+             "and declaration used (lattices first), Cls[...] context and wrong-kind corruptions, and the declarations again "
+             "under the __future__ import with the length of the stored annotation text; distinct = distinct spelling "
+             "signatures" % max_depth)
 
 
 def replay(obj):
